@@ -155,6 +155,17 @@ func validHeader(v string) bool {
 	return true
 }
 
+// validLinePart reports whether v is non-empty and free of control bytes and spaces, so
+// that it can be written verbatim into an HTTP/1.x request line or as a header field name.
+func validLinePart(v string) bool {
+	for i := 0; i < len(v); i++ {
+		if v[i] <= ' ' || v[i] == 0x7f {
+			return false
+		}
+	}
+	return len(v) > 0
+}
+
 var httpCodeStringCommon = map[int]string{} // n -> strconv.Itoa(n)
 
 func init() {
